@@ -84,8 +84,21 @@ def build(api, dist, shape, chunks, seed, variant=0, via=0):
 
     import dask.array as da
 
+    if api != "gen" and via == 3:
+        # module-level seed in this thread, array constructed by another thread (a helper thread
+        # that only builds the graph; it is joined before anything else happens)
+        import threading
+
+        da.random.seed(seed)
+        box = {}
+        th = threading.Thread(target=lambda: box.update(a=build(api, dist, shape, chunks, seed, variant, via=-2)))
+        th.start()
+        th.join()
+        return box["a"]
     if api == "gen":
         rng = da.random.default_rng(seed)
+    elif via == -2:
+        rng = da.random               # already seeded by the calling thread
     elif via == 1:
         rng = da.random.RandomState()
         rng.seed(seed)
@@ -152,7 +165,7 @@ def run_one(tape, cfg):
         shape = tuple(1 + tape.draw(cfg["maxdim"], "dim") for _ in range(ndim))
         chunks = chunks_for(tape, shape)
         seed = tape.draw(10000, "seed") if tape.draw(6, "smallseed") else tape.draw(2, "seed01")
-        via = tape.draw(3, "via") if api == "rs" and mode == "seeded" else 0
+        via = tape.draw(4, "via") if api == "rs" and mode == "seeded" else 0
     wl = {"mode": mode, "api": api, "dist": dist, "shape": shape, "chunks": chunks, "seed": seed, "via": via}
     out.decoded = wl
     out.abstract = ((mode, api, dist),)
